@@ -28,12 +28,12 @@
    offset with the name it is configured by (the tz database is not modelled: "UTC", "Etc/GMT-3" ...).
    The digest is a Section variable (bytes -> bytes), as in Audit.v / MetaText.v.
    Time-stamp texts (register headers, price records) come from Tstamp.v, period keys from Time.v.
-   The description of an applied filter is Codec.describe_def, which renders the two time-stamp leaves in
-   UTC: a filter with such a leaf under another report zone is outside this model (run_dom in T06_spec.v).
+   The description of an applied filter is T06_describe.describe_def_tz at the report offset (Codec.describe_def with
+   the two time-stamp leaves rendered in the report zone, as FilterDefZoned does).
    If a report or export cannot be produced by the component models (Balance.balance = None), the run is
    Err E_report: the model then says nothing about partially written output. *)
 From TkModel Require Import Base Dec Acct Txn Accept Journal Balance Register Round Price Time Group.
-From TkModel Require Import ReportText T05_report PriceText Regex.
+From TkModel Require Import ReportText T05_report PriceText Regex T06_describe.
 From TkModel Require Filter Equity EquityText MetaText Audit Codec Tstamp Config.
 Local Open Scope Z_scope.
 
@@ -171,7 +171,7 @@ Definition run_filter (cfg : run_cfg) (js : list jtxn) : list jtxn :=
   end.
 (* the lines of the TxnFilterDescription item *)
 Definition filter_desc (cfg : run_cfg) : option (list (list N)) :=
-  option_map (fun fp => MetaText.filter_lines (Codec.describe_def (to_cfilter (snd fp) (fst fp)))) (rc_filter cfg).
+  option_map (fun fp => MetaText.filter_lines (describe_def_tz (rc_zone_off cfg) (to_cfilter (snd fp) (fst fp)))) (rc_filter cfg).
 
 Definition uuid_of (j : jtxn) : option Audit.uuid :=
   match h_uuid (jt_hdr j) with Some s => Audit.uuid_parse s | None => None end.
@@ -197,6 +197,17 @@ Record run_state : Type := mkRunState {
   rs_db : list pentry }.                    (* the stored price data base *)
 
 Definition rs_txns (st : run_state) : list txn := map txn_of (rs_sel st).
+
+(* PriceLookupCtx::value_of (since /repo da90aec): amount.checked_mul(rate) — a value whose integer part does not
+   fit 96 bits is an ERROR of the report that meets it (before: a panic).  Every report converts every posting of
+   the set (convert_prices), so a run with a report target fails as soon as one converted amount is out of range;
+   what was written before (metadata, earlier reports, the separator and head of the failing report) stays on the
+   output, the model says Err.  A product that fits only after rounding (more than 28 decimals) is rust_decimal's
+   silent rounding: outside the exact domain. *)
+Definition int_overflow (d : dec) : bool := 2 ^ 96 <=? Z.abs (dm d) / pow10 (ds d).
+Definition conv_overflow (cfg : run_cfg) (st : run_state) : bool :=
+  let ctx := report_ctx (rs_lk st) (rc_commodity cfg) (rs_db st) (map txn_of (rs_sel st)) in
+  existsb (fun t => existsb (fun c => int_overflow (cv_amount c)) (convert_prices ctx t)) (map txn_of (rs_sel st)).
 
 Section Digest.
   Variable H : list N -> list N.
@@ -240,7 +251,8 @@ Section Digest.
                                  (rs_lk st) (rc_commodity cfg) (rs_db st) names (rs_txns st))
     end.
   Definition report_text (cfg : run_cfg) (st : run_state) (k : MetaText.report_kind) : option (list N) :=
-    option_map (fun b => report_head_text cfg st k ++ b) (report_body cfg st k).
+    if conv_overflow cfg st then None
+    else option_map (fun b => report_head_text cfg st k ++ b) (report_body cfg st k).
 
   (* ---------------------------------------------------------------- console mode *)
   Definition sep_len : nat := 82%nat.                     (* report_separator_len *)
